@@ -528,7 +528,9 @@ def gen_pipeline(rng, big):
 
 def gen_realops(rng, big):
     """hand-built automata pushed through the real read_product / reduce / minimise"""
-    for _ in range(6):
+    best = None
+    want_big = rng.random() < 0.7
+    for _ in range(10):
         g = gen_hand(rng, False)
         if g is None or not g[0][0]:
             continue
@@ -555,8 +557,16 @@ def gen_realops(rng, big):
             A = A.minimise()
         rules, finals = from_dfta(A)
         if rules and finals:
-            return rules, finals, ["realops." + op]
-    return None
+            o = Oracle(rules, finals)
+            cn = o.counts(o.ranks())
+            n = sum(cn[q] for q in set(K(q) for q in finals))
+            if n > 20000:
+                continue
+            if best is None or n > best[0]:
+                best = (n, (rules, finals, ["realops." + op]))
+            if n >= 10 or not want_big:
+                break
+    return best[1] if best else None
 
 
 class GenTimeout(Exception):
@@ -592,11 +602,25 @@ def gen(rng, i, tier):
         rules, finals, t2 = got
         tags += t2
     else:
+        want_big = rng.random() < 0.75      # mostly languages of at least 10 programs
+        best, best_n = None, -1
         for _ in range(20):
             g = gen_hand(rng, big)
-            if g is not None and g[0][0] and g[0][1]:
+            if g is None or not g[0][0] or not g[0][1]:
+                continue
+            o = Oracle(g[0][0], g[0][1])
+            rk = o.ranks()
+            cn = o.counts(rk)
+            n = sum(cn[q] for q in set(K(q) for q in g[0][1]))
+            if n > 20000:
+                continue
+            if n > best_n:
+                best, best_n = g, n
+            if not want_big or n >= 10:
+                best = g
                 break
-        else:
+        g = best
+        if g is None:
             g = (([[["P", "a", "int"], [], ["t", ["T", "int"], 0]]], [["t", ["T", "int"], 0]]), None)
         (rules, finals), _ = g
         shape = rng.choice(SHAPES)
@@ -793,7 +817,7 @@ def check(case, M):
     if len(set(K(v) for v in impl_d2.values())) < len(impl_d2):
         # states merged (finding C06-F1): the grammar can be wildly ambiguous, and enumerating all
         # derivations of a large program takes exponential time: keep the small programs
-        small = [t for t in trees if sum(1 for _ in paths(t)) <= 9]
+        small = [t for t in trees if sum(1 for _ in paths(t)) <= 7]
         trees = [t for t in small if O.accepts(t)][:40] + [t for t in small if not O.accepts(t)][:40]
         tags.append("impl.d2state-merges")
     obits = [O.accepts(t) for t in trees]
